@@ -120,7 +120,25 @@ impl ExecStats {
     }
 }
 
+static POOL: std::sync::OnceLock<Vec<GameState>> = std::sync::OnceLock::new();
+/// must be called once per process, outside any shuttle execution
+pub fn init_pool(seed: u64) {
+    POOL.get_or_init(|| {
+        verif_seam::set_scheduling(false);
+        crate::game::build_state_pool(seed, 96)
+    });
+}
+
 fn make_root() -> (GameState, Vec<Action>) {
+    // most roots come from the pool of states whose expansion consults the repetition history
+    if let Some(pool) = POOL.get() {
+        if !pool.is_empty() && rnd() % 10 < 6 {
+            let n = pool.len() as u64;
+            // bias towards the front of the pool (mixed-answer states)
+            let i = (rnd() % n).min(rnd() % n) as usize;
+            return (pool[i].clone(), vec![]);
+        }
+    }
     let text = ROOTS[(rnd() % ROOTS.len() as u64) as usize];
     let mut s: GameState = text.parse().expect("root diagram");
     let mut path = vec![];
@@ -173,7 +191,8 @@ pub fn scenario_c18(stats: &Arc<ExecStats>) {
                 let (idx, st) = {
                     let tree = shared.tree.lock().unwrap();
                     let live: Vec<usize> = (0..tree.len()).filter(|i| !tree[*i].pruned).collect();
-                    let idx = live[(rnd() % live.len() as u64) as usize];
+                    // half of the operations hit the shared root itself
+                    let idx = if rnd() % 2 == 0 { 0 } else { live[(rnd() % live.len() as u64) as usize] };
                     (idx, tree[idx].state.clone())
                 };
                 match rnd() % 10 {
@@ -305,13 +324,13 @@ pub fn scenario_c18(stats: &Arc<ExecStats>) {
     verif_seam::set_scheduling(true);
 }
 
-pub const DROP_DEPTH_BOUND: usize = 4;
+pub const DROP_DEPTH_BOUND: usize = crate::stack::DROP_DEPTH_BOUND;
 
 /// one shuttle execution of the C20 scenario
 pub fn scenario_c20(stats: &Arc<ExecStats>) {
     verif_seam::set_scheduling(false);
     // build a long list and branches of it without scheduling points (fast), then release under the scheduler
-    let len = 50 + (rnd() % 1500) as usize;
+    let len = 2500 + (rnd() % 2500) as usize;
     let mut l: List<Zobrist> = List::new();
     let mut branches: Vec<List<Zobrist>> = vec![];
     for i in 0..len {
@@ -423,6 +442,7 @@ fn run_runner(f: Box<dyn Fn() + Send + Sync + 'static>, seed: u64, w: usize, per
 pub fn cmd_solo(name: &str, seed: u64, w: usize, per: usize, dir: &str) -> i32 {
     let _ = std::fs::remove_dir_all(dir);
     let _ = std::fs::create_dir_all(dir);
+    init_pool(seed);
     let stats = Arc::new(ExecStats::new());
     crate::ctx::set_quiet(true);
     let (failed, _) = run_runner(scenario_fn(name, stats), seed, w, per, Some(dir));
@@ -440,9 +460,10 @@ pub fn cmd_run(name: &str, tier: &str, seed: u64, workers: usize, out: &str, rep
     let total: usize = match (name, tier) {
         ("c18", "thorough") => 1_200_000,
         ("c18", _) => 24_000,
-        (_, "thorough") => 60_000,
-        _ => 2_400,
+        (_, "thorough") => 24_000,
+        _ => 960,
     };
+    init_pool(seed);
     let stats = Arc::new(ExecStats::new());
     let workers = workers.max(1);
     let per = total / workers;
@@ -513,7 +534,7 @@ pub fn cmd_run(name: &str, tier: &str, seed: u64, workers: usize, out: &str, rep
         "rule": if name == "c18" {
             "each case = one schedule of 2-4 simulated searcher threads x 3-10 operations (expand, query, playout, hand-over, prune) on a shared tree whose root has 2-11 steps of history; every logged result is recomputed sequentially on a private copy and every published state's full digest is re-taken; non-trivial = distinct interleavings (digest of the task-id sequence at the seam's scheduling points) in which at least two threads operated on the same node"
         } else {
-            "each case = one schedule of 2-4 threads releasing clones, tails and older branches of one 50-1550 link history while walking it; the seam's nested link-drop depth must stay <= 4; non-trivial = distinct interleavings (digest of the task-id sequence at scheduling points)"
+            "each case = one schedule of 2-4 threads releasing clones, tails and older branches of one 2500-5000 link history while walking it; the seam's nested link-drop depth must stay <= 2000 (growth criterion); non-trivial = distinct interleavings (digest of the task-id sequence at scheduling points)"
         },
         "samples": [{"scenario": name, "schedulers": results.iter().map(|r| r.1.clone()).collect::<Vec<_>>(), "executions_per_runner": per}],
         "schedules": execs,
@@ -550,6 +571,7 @@ pub fn cmd_replay(path: &str) -> i32 {
     let name = f.v["scenario"].as_str().unwrap_or("c18").to_string();
     let sched = f.v["schedule_file"].as_str().unwrap_or("").to_string();
     let prop = f.v["property"].as_str().unwrap_or("C18").to_string();
+    init_pool(f.v["seed"].as_u64().unwrap_or(1));
     let stats = Arc::new(ExecStats::new());
     let func = scenario_fn(&name, stats);
     let r = std::panic::catch_unwind(std::panic::AssertUnwindSafe(|| {
